@@ -178,17 +178,17 @@ impl<K: SimK, V: SimV, const N: usize, const M: usize> World<K, V, N, M> {
                 let p = pre.set(*t);
                 on_set!(self, *t, |s, cx| set_extend(s, cx, items, src, p))
             }
-            Op::Fmt { t, set: false, style, sink } => {
+            Op::Fmt { t, set: false, style, sink, spec } => {
                 let p = pre.map(*t);
-                on_map!(self, *t, |m, cx| fmt_map(m, cx, *style, *sink, p))
+                on_map!(self, *t, |m, cx| fmt_map(m, cx, *style, *spec, *sink, p))
             }
-            Op::Fmt { t, set: true, style, sink } => {
+            Op::Fmt { t, set: true, style, sink, spec } => {
                 let p = pre.set(*t);
-                on_set!(self, *t, |s, cx| fmt_set(s, cx, *style, *sink, p))
+                on_set!(self, *t, |s, cx| fmt_set(s, cx, *style, *spec, *sink, p))
             }
-            Op::FmtIter { t, which, take, alt, sink } => {
+            Op::FmtIter { t, which, take, alt, sink, spec } => {
                 let p = pre.map(*t);
-                on_map!(self, *t, |m, cx| fmt_iter(m, cx, *which, *take, *alt, *sink, p))
+                on_map!(self, *t, |m, cx| fmt_iter(m, cx, *which, *take, *alt, *spec, *sink, p))
             }
             Op::Serde { t, set, cfg } => crate::ops_serde::serde_op(self, *t, *set, cfg, pre),
             Op::Relocate { t, set } => {
@@ -291,7 +291,7 @@ impl<K: SimK, V: SimV, const N: usize, const M: usize> World<K, V, N, M> {
                     }
                     // exactly N entries: every previous one, plus elements that came earlier in the stream
                     let kept = a.iter().all(|e| b.iter().any(|x| x.kid == e.kid));
-                    let fresh_ok = env::with(|e| b.iter().filter(|x| !a.iter().any(|y| y.kid == x.kid)).all(|x| x.kid != 0 && e.objs[x.kid as usize - 1].born_op == e.cur_op));
+                    let fresh_ok = K::PLAIN || env::with(|e| b.iter().filter(|x| !a.iter().any(|y| y.kid == x.kid)).all(|x| x.kid != 0 && (x.kid as usize) <= e.objs.len() && e.objs[x.kid as usize - 1].born_op == e.cur_op));
                     if !kept || !fresh_ok || b.len() != cap(true) {
                         violate("changed-by-rejected-call", format!("{name}: after the rejected element the set must hold its {} previous elements plus earlier stream elements up to capacity {}; it holds {} (previous kept: {kept})", a.len(), cap(true), b.len()));
                     }
